@@ -168,8 +168,36 @@ def set_cases(E, ctx):
 
     def fresh_hash():
         return objs.hash32(E, "_set.r")
-    return [Case("updated", ensures=ens, post=post, modifies=[db], rtype=fresh_hash),
-            Case("refused", raises=nov(E), post=post, modifies=[db]),
+    # which update is this?  (the mode is fixed on every path: set_setup splits on it; callers pass constants)
+    if z3.is_true(z3.simplify(subt)):
+        mode = 2
+    elif E.implied(mk_bool(z3.Length(v) > 0)):
+        mode = 0
+    elif E.implied(mk_bool(z3.Length(v) == 0)) and z3.is_false(z3.simplify(subt)):
+        mode = 1
+    else:
+        mode = None
+    if mode is None:
+        ref = None
+        g_ok, g_ref = True, True
+    else:
+        BM.unfold_brefuse(E, mode, h, k)
+        if unit_mode:
+            from contracts import seqlemmas as SL
+            P = BM.parts_of(E, h).path
+            SL.use(E, "prefix_is_code_slice", P, k)
+            SL.use(E, "prefix_is_slice", P, k)
+            SL.use(E, "prefix_is_slice", k, P)
+            for (ta, tb, rterm) in E.ghost.get("gcpl", []):
+                SL.use(E, "code_slice_props", k, z3.Length(P))
+                SL.use(E, "prefix_nth", tb, k, rterm)
+                SL.use(E, "split2", k, rterm)
+                SL.use(E, "split2", P, rterm)
+                SL.use(E, "prefix_is_slice", k, P)
+        ref = BM.brefuse(z3.IntVal(mode), h, k)
+        g_ok, g_ref = mk_bool(z3.Not(ref)), mk_bool(ref)
+    return [Case("updated", when=g_ok, ensures=ens, post=post, modifies=[db], rtype=fresh_hash),
+            Case("refused", when=g_ref, raises=nov(E), post=post, modifies=[db]),
             Case("missing-node", raises=KeyError, post=post, modifies=[db])]
 
 
